@@ -25,7 +25,7 @@ EXPLANATION = (
     "last parsing stage that replaces X on every path - otherwise the checks are driven by the un-parsed columns. NOT decided: that the output re-validates (a fixpoint property over values)."
 )
 LEVEL_RULE = "one obligation per stage call / return in the validate methods and parser pipelines"
-FLOORS = {"R1": 30, "R2": 12, "R3": 2, "R4": 2, "R5": 1}
+FLOORS = {"R1": 30, "R2": 12, "R3": 2, "R4": 2, "R5": 1, "R6": 1, "R7": 3}
 
 STAGES = {"validate", "_validate", "coerce_dtype", "set_default", "set_defaults", "add_missing_columns",
           "strict_filter_columns", "run_parsers", "drop_invalid_rows", "preprocess", "lazy", "collect", "add_schema",
@@ -355,8 +355,140 @@ def r5_container_defaults(ctx):
                f.loc(c))
 
 
+def r6_missing_column_runs(ctx):
+    """add_missing_columns decides where each missing column goes while ranging over the frame's own columns (so that
+    the order of the existing columns is untouched).  Several declared columns may be missing between two existing
+    ones, so the insertion performed for one existing column must itself be iterated (an inner loop / comprehension /
+    extend of a computed iterable over the pending schema columns): a bounded number of insertions per existing column
+    leaves the rest of the run to the trailing 'remaining absent columns' step, i.e. out of schema order, and the
+    ordered schema rejects the returned frame on re-validation."""
+    from ..expand import expanded
+    from .c08 import PDC
+    cls = ctx.ix.cls(PDC)
+    f0 = cls.lookup("add_missing_columns")
+    if f0 is None:
+        raise AnalysisError("pandas container add_missing_columns missing")
+    ctx.touched(f0)
+    f = expanded(ctx.ix, f0)
+    data_params = set(f0.positional[1:])
+    outer = []
+    for n in walk_no_nested(f.node):
+        if isinstance(n, ast.For) and isinstance(n.target, ast.Name):
+            it = n.iter
+            if any(isinstance(a, ast.Attribute) and a.attr == "columns" and isinstance(a.value, ast.Name) and a.value.id in data_params
+                   and "schema" not in a.value.id for a in ast.walk(it)):
+                outer.append(n)
+    if not outer:
+        ctx.ob("R6", f0, "missing columns are placed while ranging over the frame's columns", True,
+               "no loop over the frame's columns: a different placement construction (not decided by this rule)")
+        return
+    for L in outer:
+        lv = L.target.id
+        inserts = []  # (call node, iterated?)
+
+        def visit(stmts, depth):
+            for st in stmts:
+                for n in ([st] if not isinstance(st, (ast.For, ast.While, ast.If, ast.Try, ast.With)) else []):
+                    for c in calls_in(n):
+                        if isinstance(c.func, ast.Attribute) and c.func.attr in ("append", "insert", "extend") and c.args:
+                            a = c.args[-1]
+                            if isinstance(a, ast.Name) and a.id == lv:
+                                continue
+                            it = c.func.attr == "extend" and not isinstance(a, (ast.List, ast.Tuple))
+                            in_comp = False
+                            inserts.append((c, depth > 0 or it or in_comp))
+                    if isinstance(n, ast.AugAssign) and isinstance(n.op, ast.Add):
+                        inserts.append((n, not isinstance(n.value, (ast.List, ast.Tuple)) or depth > 0))
+                if isinstance(st, (ast.For, ast.While)):
+                    visit(st.body, depth + 1)
+                    visit(st.orelse, depth)
+                elif isinstance(st, ast.If):
+                    visit(st.body, depth)
+                    visit(st.orelse, depth)
+                elif isinstance(st, ast.Try):
+                    visit(st.body, depth)
+                    for h in st.handlers:
+                        visit(h.body, depth)
+                    visit(st.finalbody, depth)
+                elif isinstance(st, ast.With):
+                    visit(st.body, depth)
+
+        visit(L.body, 0)
+        # only insertions into the list that also receives the loop variable (the ordered result) count
+        res = {txt(c.func.value) for c in calls_in(L) if isinstance(c.func, ast.Attribute) and c.func.attr in ("append", "insert")
+               and c.args and isinstance(c.args[-1], ast.Name) and c.args[-1].id == lv}
+        rel = [(c, it) for c, it in inserts if (isinstance(c, ast.Call) and txt(c.func.value) in res) or
+               (isinstance(c, ast.AugAssign) and txt(c.target) in res)]
+        if not rel:
+            ctx.ob("R6", f0, "missing columns are placed while ranging over the frame's columns", True,
+                   "the loop over the frame's columns inserts nothing but the existing column (placement happens elsewhere; not decided by this rule)",
+                   f0.loc(L))
+            continue
+        ok = any(it for _, it in rel)
+        ctx.ob("R6", f0, "a run of several missing columns ahead of an existing column is inserted in place", ok,
+               "the insertion of pending missing columns is iterated per existing column" if ok else
+               f"`{txt(rel[0][0])[:70]}` executes at most {len(rel)} time(s) per existing column: with schema a,b,c,d and data a,d only b is placed "
+               "before d and c is appended at the end (a,b,d,c) - validate(S, D') of the ordered schema then raises although D' = validate(S, D)",
+               f0.loc(rel[0][0]))
+
+
+def r7_component_writeback(ctx):
+    """The pandas component backends (column, index, multi-index) validate by delegating to the array / dataframe backend
+    on an object *derived* from the working object (`check_obj[col]`, `check_obj.index.to_series()`, a frame built from
+    the index levels).  Whatever the delegate coerces lives in that derived object and is discarded, so the component
+    itself must coerce under `schema.coerce` and store the result back into the working object it returns."""
+    from ..expand import expanded
+    from ..util import Expander
+    ix = ctx.ix
+    m = ix.module("pandera/backends/pandas/components.py")
+    n = 0
+    for c in m.classes.values():
+        for f0 in c.methods.get("validate", []):
+            f = expanded(ix, f0)
+            delegates = [x for x in calls_in(f.node, nested=True) if callee_last(x) == "validate" and isinstance(x.func, ast.Attribute)
+                         and isinstance(x.func.value, ast.Call) and callee_last(x.func.value) == "super"]
+            if not delegates:
+                continue
+            ctx.touched(f0)
+            n += 1
+            data = next((p for p in f0.positional[1:3] if p in ("check_obj", "obj")), None)
+            if data is None:
+                raise AnalysisError(f"{f0.short}: no data parameter")
+            ex = Expander(f.node)
+            stores = []
+            for st in walk_no_nested(f.node):
+                if isinstance(st, ast.Assign):
+                    for t in st.targets:
+                        if isinstance(t, (ast.Attribute, ast.Subscript)):
+                            root = t
+                            while isinstance(root, (ast.Attribute, ast.Subscript)):
+                                root = root.value
+                            if isinstance(root, ast.Name) and root.id == data:
+                                src = [x for d in ex.closure(st.value) for x in ast.walk(d) if isinstance(x, ast.Call) and "coerce" in callee_last(x)]
+                                if src:
+                                    guards = []
+                                    ch, p_ = st, parent(st)
+                                    while p_ is not None and p_ is not f.node:
+                                        if isinstance(p_, ast.If) and any(ch is b for b in p_.body):
+                                            guards.append(txt(p_.test))
+                                        ch, p_ = p_, parent(p_)
+                                    stores.append((st, guards))
+            stores = [(st, gs) for st, gs in stores if any("coerce" in g for g in gs) or not gs]
+            ok = bool(stores)
+            ctx.ob("R7", f0, f"{f0.short}: coercion is written back into the working object", ok,
+                   "; ".join(f"`{txt(st)[:60]}` under {gs or 'no guard'}" for st, gs in stores[:2]) if ok else
+                   f"{len(delegates)} delegated validate call(s) run on an object derived from `{data}` and their result is not the returned object, "
+                   f"and nothing stores a coerced value into `{data}`: with coerce=True the checks pass on the coerced copy while validate returns "
+                   "the un-coerced data, which the same schema without coerce rejects", f0.loc(delegates[0]))
+    ctx.stats["component_delegates"] = n
+    if n < 3:
+        raise AnalysisError(f"expected the column, index and multi-index backends to delegate to super().validate; found {n}")
+
+
 def run(ctx):
     r4_filter_set(ctx)
+    r7_component_writeback(ctx)
+    r6_missing_column_runs(ctx)
     r5_container_defaults(ctx)
     ix = ctx.ix
     total = 0
